@@ -86,7 +86,8 @@ func c10Spell(t *rapid.T, v *big.Int) (string, int) {
 	if base == 16 && rapid.Bool().Draw(t, "upperdigits") {
 		digits = strings.ToUpper(digits)
 	}
-	if base != 10 && rapid.IntRange(0, 3).Draw(t, "lead0") == 0 {
+	// (leading zeros also on decimal literals: `0755` is decimal 755, octal is spelled 0o755)
+	if rapid.IntRange(0, 3).Draw(t, "lead0") == 0 {
 		digits = strings.Repeat("0", rapid.IntRange(1, 3).Draw(t, "nlead")) + digits
 	}
 	if len(digits) > 1 && rapid.IntRange(0, 2).Draw(t, "sep") == 0 {
@@ -348,12 +349,12 @@ func c10Check(env *core.Env, ci any) (res core.Result) {
 func init() {
 	core.Register(&core.Prop{
 		ID:    "C10",
-		Rule:  "rapid-generated batches of 6-40 integer literals: type in the 12 integer types x value (range boundaries +-2, boundaries of other types +-1, 2^k+-1 up to k=300, small, uniform by bit length up to width+2 and sometimes 300 bits) x spelling (decimal/0x/0o/0b, upper/lower-case prefix and digits, single underscores between digits, leading zeros after a prefix, negation as -lit, '- lit', -(lit), parenthesised) x position (let initialiser, call argument, return value, struct field initialiser, fixed-array element). Oracle math/big: the set of lines `ferret -t` rejects must equal the out-of-range set exactly, and the accepted lines, compiled natively and run, must print their exact decimal value. non-trivial = within 2 of a range boundary, or non-decimal, or >= 65 bits; distinct = (type, spelling, position)",
+		Rule:  "rapid-generated batches of 6-40 integer literals: type in the 12 integer types x value (range boundaries +-2, boundaries of other types +-1, 2^k+-1 up to k=300, small, uniform by bit length up to width+2 and sometimes 300 bits) x spelling (decimal/0x/0o/0b, upper/lower-case prefix and digits, single underscores between digits, leading zeros (after a prefix and on plain decimal literals), negation as -lit, '- lit', -(lit), parenthesised) x position (let initialiser, call argument, return value, struct field initialiser, fixed-array element). Oracle math/big: the set of lines `ferret -t` rejects must equal the out-of-range set exactly, and the accepted lines, compiled natively and run, must print their exact decimal value. non-trivial = within 2 of a range boundary, or non-decimal, or >= 65 bits; distinct = (type, spelling, position)",
 		Gen:   c10Gen,
 		New:   func() any { return &c10Case{} },
 		Check: c10Check,
 		Assumptions: []string{
-			"decimal literals with leading zeros are not generated (their intended base is not documented)",
+			"a decimal literal with leading zeros denotes its decimal value (the range check of the type checker says so; octal has the 0o prefix)",
 			"a literal counts as accepted only when a whole compilation containing it succeeds",
 			"values are observed through io::Println",
 		},
